@@ -127,6 +127,16 @@ def c18_reload_history(rng):
         except Exception as e:
             exc = repr(e)[:200]
         lost = {"reason": "raises", "detail": exc} if exc else pysim.find_cons_violation(orig, sc2)
+        # every name the written graph holds - blocks, regions and control variables - is taken
+        present = set(d["blocks"])
+        for info in d["blocks"].values():
+            if "variable" in info:
+                present.add(info["variable"])
+            present.update(info.get("variable_assignment", {}).keys())
+        again = [e[3] for e in rec.events if e[0] != "reserve" and e[3] in present]
+        if again and not lost:
+            lost = {"reason": "after reading the graph back the generator handed out a name the graph already "
+                              "holds (block, region or control variable)", "name": again[0]}
         return rec.events, list(sc2.name_gen.kinds.items()), lost, succ, stages.STAGES[k]
 
 
@@ -219,7 +229,7 @@ def check_c18(pid, tier, build, props):
         h = c18_random_history(rng)
         if h:
             cases.append((h[0], h[1], "api-history"))
-    for _ in range(40 if quick else 400):
+    for _ in range(120 if quick else 1200):
         try:
             ev, ks, lost, succ_, after = c18_reload_history(rng)
             cases.append((ev, ks, "write-read-continue"))
